@@ -193,6 +193,30 @@ func init() {
 		return st + ";ax=" + fints(axes)
 	}
 	// arg:<max|min>:<a>:<axis>
+	// reducefn:sum:<t>:<axis> : Dense.Reduce with a user function (a+b) and default value 0
+	progOps["reducefn"] = func(w *world, f []string) string {
+		t := w.ts[atoi(f[2])]
+		var fn, def interface{}
+		switch w.dt {
+		case "f64":
+			fn, def = func(a, b float64) float64 { return a + b }, float64(0)
+		case "f32":
+			fn, def = func(a, b float32) float32 { return a + b }, float32(0)
+		case "i":
+			fn, def = func(a, b int) int { return a + b }, int(0)
+		case "i64":
+			fn, def = func(a, b int64) int64 { return a + b }, int64(0)
+		case "i32":
+			fn, def = func(a, b int32) int32 { return a + b }, int32(0)
+		default:
+			panic("reducefn dtype")
+		}
+		r, err := t.Reduce(fn, atoi(f[3]), def)
+		if err != nil {
+			return "err"
+		}
+		return w.newOrSame(r)
+	}
 	progOps["arg"] = func(w *world, f []string) string {
 		a := w.ts[atoi(f[2])]
 		var r tensor.Tensor
